@@ -1,0 +1,16 @@
+//go:build verif
+// +build verif
+
+package badger
+
+// VerifAfterCommit, when set, is called after every committed read-write
+// transaction of the store. It exists only in builds with the `verif` tag and
+// is used by the verification harness to place crash points between
+// transactions.
+var VerifAfterCommit func()
+
+func verifAfterCommit() {
+	if VerifAfterCommit != nil {
+		VerifAfterCommit()
+	}
+}
